@@ -15,6 +15,9 @@ for sid in ids:
     pid = meta["property"]
     if pid not in claimed:
         print(f"{sid}: property {pid} not claimed yet, skipped"); continue
+    # the evidence file must keep describing the unchanged tree: save it, restore it afterwards
+    evf = os.path.join(ROOT, "evidence", pid + ".json")
+    saved_ev = open(evf).read() if os.path.exists(evf) else None
     subprocess.run(["git", "-C", "/repo", "apply", os.path.join(d, "patch.diff")], check=True)
     t0 = time.time()
     try:
@@ -29,5 +32,7 @@ for sid in ids:
         results[sid] = dict(property=pid, verdict=kind, line=(viol[0] if viol else (out[-1] if out else "")), wall_s=round(time.time() - t0, 1))
     finally:
         subprocess.run(["git", "-C", "/repo", "checkout", "--", "."], check=True)
+        if saved_ev is not None:
+            open(evf, "w").write(saved_ev)
     print(sid, results[sid]["verdict"], "|", results[sid]["line"][:150])
 json.dump(results, open(resfile, "w"), indent=1, sort_keys=True)
